@@ -83,9 +83,14 @@ PROPS["C05"] = dict(
     assumptions=["a miss is always allowed (completeness of lookup is not claimed)", "queries are non-empty"],
     jobs=[
         Job("shard_dedup", engine="shard_dedup", workers=(8, 16), cases=(30, 3000), time_s=(40, 700), args={"queries": (300, 1500)}, **PURE),
+        # the answers the file deduper actually acts on (shard lookups and the lookup against the xorb being built),
+        # judged by resolving every file record against the stored xorbs and the file's own chunk list
+        Job("sess-t1024-x16k-c8", engine="session", profile="smallchunk", pkg="xv_full", binname="xv_full",
+            env={"HF_XET_TARGET_CHUNK_SIZE": 1024, "XV_EXPECT_TARGET": 1024, "HF_XET_MAX_XORB_BYTES": 16384, "HF_XET_MAX_XORB_CHUNKS": 8, "HF_XET_INGESTION_BLOCK_SIZE": 65536, "HF_XET_MDB_SHARD_MIN_TARGET_SIZE": 8192},
+            workers=(4, 4), cases=(60, 6000), time_s=(45, 800)),
     ],
     gates=dict(evaluations=(200, 5000), distinct=(40, 100),
-               counters={"hits": (5000, 500000), "partial_hits": (1000, 100000), "collision_resolved_hits": (1000, 100000), "manager_op_keyed-export": (5, 100), "manager_op_consolidate-reopen": (5, 100)}),
+               counters={"hits": (5000, 500000), "partial_hits": (1000, 100000), "collision_resolved_hits": (1000, 100000), "manager_op_keyed-export": (5, 100), "manager_op_consolidate-reopen": (5, 100), "session_deduped_chunks_resolved": (2000, 100000)}),
 )
 
 PROPS["C09"] = dict(
